@@ -225,6 +225,8 @@ def replay_file(path, keep=False):
     """./check --replay <file>: re-run the recorded counterexample against /repo's CURRENT tree.
     exit 1 (and a VIOLATION line) if it still reproduces, 0 if it no longer does."""
     rep = json.load(open(path))
+    if rep.get("engine") == "z3":
+        return replay_z3(rep, path, keep)
     scratch = "/var/tmp/masscanned-verif.replay.%d" % os.getpid()
     os.makedirs(scratch, exist_ok=True)
     try:
@@ -237,6 +239,26 @@ def replay_file(path, keep=False):
             print("VIOLATION property=%s replay=%s" % (rep["property"], path))
             return 1
         log("counterexample no longer reproduces on the current tree")
+        return 0
+    finally:
+        if not keep:
+            shutil.rmtree(scratch, ignore_errors=True)
+
+
+def replay_z3(rep, path, keep=False):
+    """C10 z3 witness: run the REAL matcher of the current tree on the recorded payload."""
+    from c10_engine import native_real_id, ref_id
+    scratch = "/var/tmp/masscanned-verif.replay.%d" % os.getpid()
+    os.makedirs(scratch, exist_ok=True)
+    try:
+        files, harnesses = ov_mod.parse_harness_files()
+        ovdir, src_hash, _ = ov_mod.build_overlay(scratch, [], (), set(k for h in harnesses.values() for k in h.known))
+        real = native_real_id(ovdir, rep["witness"], rep["mode"])
+        ref = ref_id(rep["witness"], rep["mode"])
+        log("replay z3 witness %s (%s): real matcher -> %s, signature set -> %s" % (rep["witness"], rep["mode"], real, ref))
+        if real != ref:
+            print("VIOLATION property=%s replay=%s" % (rep["property"], path))
+            return 1
         return 0
     finally:
         if not keep:
